@@ -49,8 +49,8 @@ VARIABLES phase,      \* "idle" | "arrived" | "forwarded" | "answered" | "done"
           out         \* what the client gets: [status, body]; body: "blockpage" | "origin" | "filtered" | "tunnel"
 vars == <<phase, req, res, type1, type2, originHit, condSeen, out>>
 
-NoReq == [upgrade |-> "none", ping |-> FALSE, fetchDest |-> "none", accept |-> "none", ext |-> "none", cond |-> FALSE]
-None == [status |-> 0, body |-> "none"]
+NoReq == [upgrade |-> "none", ping |-> FALSE, fetchDest |-> "none", accept |-> "none", ext |-> "none", cond |-> FALSE, area |-> "main"]
+None == [status |-> 0, body |-> "none", option |-> 0]
 Init == /\ phase = "idle" /\ req = NoReq /\ res = Absent /\ type1 = "other" /\ type2 = "other"
         /\ originHit = FALSE /\ condSeen = FALSE /\ out = None
 
@@ -64,11 +64,11 @@ OnRequest ==
     /\ LET t == AssumeType(req, Absent) IN
        /\ type1' = t
        /\ IF Blocks(t)
-          THEN /\ phase' = "done" /\ out' = [status |-> 500, body |-> "blockpage"]
+          THEN /\ phase' = "done" /\ out' = [status |-> 500, body |-> "blockpage", option |-> 0]
                /\ UNCHANGED <<res, type2, originHit, condSeen>>
           ELSE IF t = "websocket"
           THEN \* the connection is upgraded and piped; nothing more is filtered
-               /\ phase' = "done" /\ out' = [status |-> 101, body |-> "tunnel"] /\ originHit' = TRUE
+               /\ phase' = "done" /\ out' = [status |-> 101, body |-> "tunnel", option |-> 0] /\ originHit' = TRUE
                /\ condSeen' = (req.cond /\ ~SuppressCache(t))
                /\ UNCHANGED <<res, type2>>
           ELSE /\ phase' = "forwarded" /\ originHit' = TRUE
@@ -85,10 +85,10 @@ OnResponse ==
     /\ phase = "answered"
     /\ LET t == AssumeType(req, res) IN
        /\ type2' = t
-       /\ out' = IF Blocks(t) THEN [status |-> 500, body |-> "blockpage"]
+       /\ out' = IF Blocks(t) THEN [status |-> 500, body |-> "blockpage", option |-> 0]
                  ELSE IF t \in {"document", "subdocument"} /\ ~CosmeticOff(t)
-                      THEN [status |-> 200, body |-> "filtered"]            \* FiltersByAssumedType
-                 ELSE [status |-> 200, body |-> "origin"]
+                      THEN [status |-> 200, body |-> "filtered", option |-> Option(t, req.area)]   \* FiltersByAssumedType
+                 ELSE [status |-> 200, body |-> "origin", option |-> 0]
     /\ phase' = "done"
     /\ UNCHANGED <<req, res, type1, originHit, condSeen>>
 
@@ -106,6 +106,8 @@ Decided == (phase = "done") <=> (out # None)
 \* the client gets the origin's bytes untouched unless the exchange is a page (or frame) with cosmetic filtering on
 Untouched == (phase = "done" /\ out.body = "filtered") =>
                  /\ type2 \in {"document", "subdocument"} /\ ~CosmeticOff(type2) /\ ~Blocks(type1) /\ ~Blocks(type2) /\ originHit
+\* the injected tag names the cosmetic option of this very page: never an option of another page of the site
+TagNamesThisPage == (phase = "done" /\ out.body = "filtered") => out.option = Option(type2, req.area) /\ out.option # 0
 \* a $document exception keeps its page byte-for-byte
 ExceptionKeepsPage == (phase = "done" /\ DocException /\ type2 = "document" /\ res # Absent) => out.body # "filtered"
 \* when a request header decides the type, the second look cannot change the verdict: no late block
@@ -120,6 +122,7 @@ Terminates == <>(phase = "done")
 OutcomeAgrees == phase = "done" =>
     LET o == Outcome(req, IF res = Absent THEN "none" ELSE res) IN
     /\ o.type1 = type1 /\ o.origin = originHit /\ o.cond = condSeen /\ o.status = out.status /\ o.body = out.body
+    /\ o.option = out.option
     /\ (res # Absent => o.type2 = type2)
 
 =============================================================================
